@@ -4,6 +4,7 @@ import (
 	"fmt"
 	"go/token"
 	"go/types"
+	"sort"
 	"strings"
 
 	"golang.org/x/tools/go/ssa"
@@ -249,33 +250,28 @@ func r192(c *Ctx) {
 	}
 	c.ob(rule, "LoggingMiddleware/context-installed-on-the-forwarded-request", serve.Pos(), okCtx, true, "the per-request logging context must be attached to the request handed down the chain")
 	// custom headers: request headers from r.Header, response headers from writer.Header()
-	rch := c.method("LoggingMiddleware", "retrieveCustomHeaders")
+	// (retrieveCustomHeaders is de-anchored: always expanded into the log closure) every configured name is looked up in
+	// the matching header map: request names in the request's headers, response names in the counting writer's
 	var srcs []string
-	for _, cs := range callsTo(logCl, rch) {
-		list := c.attrSource(cs.common().Args[1])
-		hdr := sourceOfHeader(cs.common().Args[2])
-		pfx, _ := constString(cs.common().Args[3])
-		srcs = append(srcs, list+"|"+hdr+"|"+pfx)
-	}
-	okH := len(srcs) == 2
-	for _, s := range srcs {
-		if s != "loggingRequestContext.RequestHeaders|request|req" && s != "loggingRequestContext.ResponseHeaders|writer|resp" {
-			okH = false
-		}
-	}
-	c.ob(rule, "log-closure/custom-headers-from-request-and-writer", logCl.Pos(), okH, true, fmt.Sprintf("configured request headers must be read from the request, response headers from the counting writer's header map: %v", srcs))
-	// retrieveCustomHeaders indexes the header map by the configured (canonical) name and joins values
-	okIdx := false
-	for _, b := range rch.Blocks {
+	okIdx := true
+	for _, b := range logCl.Blocks {
 		for _, in := range b.Instrs {
-			if l, ok := in.(*ssa.Lookup); ok && l.X == ssa.Value(rch.Params[2]) {
-				if s, full := fullRangeElem(l.Index); full && s == ssa.Value(rch.Params[1]) {
-					okIdx = true
-				}
+			l, ok := in.(*ssa.Lookup)
+			if !ok || namedOf(l.X.Type()) != "net/http.Header" {
+				continue
 			}
+			list, full := fullRangeElem(l.Index)
+			if !full {
+				okIdx = false
+				continue
+			}
+			srcs = append(srcs, c.attrSource(resolve(list))+"|"+sourceOfHeader(resolve(l.X)))
 		}
 	}
-	c.ob(rule, "retrieveCustomHeaders/looks-up-every-configured-name", rch.Pos(), okIdx, true, "")
+	sort.Strings(srcs)
+	okH := len(srcs) == 2 && srcs[0] == "loggingRequestContext.RequestHeaders|request" && srcs[1] == "loggingRequestContext.ResponseHeaders|writer"
+	c.ob(rule, "log-closure/custom-headers-from-request-and-writer", logCl.Pos(), okH, true, fmt.Sprintf("configured request headers must be read from the request, response headers from the counting writer's header map: %v", srcs))
+	c.ob(rule, "retrieveCustomHeaders/looks-up-every-configured-name", logCl.Pos(), okIdx && len(srcs) >= 2, true, "")
 	nt := c.fn("NewTarget")
 	canon := c.methodIn(c.server, "TargetOptions", "canonicalizeLogHeaders")
 	c.ob(rule, "NewTarget/canonicalises-header-names", nt.Pos(), len(callsTo(nt, canon)) == 1, true, "header maps are keyed by canonical names, so the configured names must be canonicalised once at construction")
